@@ -11,7 +11,7 @@ V  every shipped mesh file is parsed, written, re-parsed, re-written (second wri
    equal) and the written text is compared with the original by an independent tokenizer; structured
    count/dim/index mutations of the shipped files must be rejected; seeded byte-level mutations are judged by Total.
 """
-import os, json, glob, random, re, sys
+import os, json, glob, random, re, sys, shutil
 import concurrent.futures as cf
 import vlib
 import c11_meshtok as mt
@@ -231,19 +231,19 @@ def classify(r):
 
 
 def san_kind(r):
-    """short description of a sanitizer report: error type and the first FEAT function on the stack"""
+    """(error type, first FEAT function on the stack) of a sanitizer report"""
     err = r.get("stderr") or ""
     m = re.search(r"AddressSanitizer: ([\w-]+)", err) or re.search(r"runtime error: ([^\n]{0,60})", err)
     kind = m.group(1).strip() if m else ""
     kind = re.sub(r"0x[0-9a-f]+|\d+", "N", kind)
     w = re.search(r" in (?:\w+ )?(FEAT::[\w:]+)", err)
-    return (kind + " @ " + w.group(1)) if w else kind
+    return kind, (w.group(1) if w else "")
 
 
 def sig(c, r):
     s = sig0(c, r)
     if r.get("outcome") == "sanitizer":
-        s["san"] = san_kind(r)
+        s["san"], s["where"] = san_kind(r)
     return s
 
 
@@ -332,10 +332,11 @@ def run(chk):
                 graphs.append(v)
     if not docs or not muts or not ini or not graphs:
         raise vlib.MachineryError("a generator produced no cases (docs %d, mutations %d, ini %d, graphs %d)" % (len(docs), len(muts), len(ini), len(graphs)))
-    docs_path = os.path.join(GEN, "docs_%d.ndjson" % os.getpid())
-    with open(docs_path, "w") as f:
-        for d in docs.values():
-            f.write(json.dumps({k: d[k] for k in ("id", "fam", "dim", "indent", "in", "out")}, separators=(",", ":")) + "\n")
+    docs_path = os.path.join(GEN, "docs_%d" % os.getpid())
+    os.makedirs(docs_path, exist_ok=True)
+    for d in docs.values():
+        with open(os.path.join(docs_path, d["id"] + ".json"), "w") as f:
+            f.write(json.dumps({k: d[k] for k in ("id", "fam", "dim", "indent", "in", "out")}, separators=(",", ":")))
     mut_cases, seen = [], set()
     for m in muts:
         c = {"t": "mut", "docs": docs_path, "id": m["id"], "m": m["m"]}
@@ -363,8 +364,8 @@ def run(chk):
     try:
         # documents and shipped files: plain build; every mutant: ASan + UBSan build
         batches = [(std, list(docs.values()) + fcases, 120, None),
-                   (asan, mut_cases + scases + ini_cases + graph_cases, 20, ASAN_ENV),
-                   (asan, zcases, 20, ASAN_ENV)]
+                   (asan, mut_cases + scases + ini_cases + graph_cases, 90, ASAN_ENV),
+                   (asan, zcases, 90, ASAN_ENV)]
         for binary, cases, tmo, env in batches:
             res = vlib.run_cases(binary, cases, tmo=tmo, env=env)
             judge(chk, cases, res, "c11_meshfile" + (" (asan)" if binary == asan else ""), stats)
@@ -378,10 +379,13 @@ def run(chk):
         keep = docs_path if any((rp or {}).get("case", {}).get("t") == "mut" for _, _, rp in chk.violations) else None
         for p in glob.glob(os.path.join(GEN, "*_%d*" % os.getpid())):
             if p != keep:     # the documents of failing mutation cases stay for --replay
-                try:
-                    os.remove(p)
-                except OSError:
-                    pass
+                if os.path.isdir(p):
+                    shutil.rmtree(p, ignore_errors=True)
+                else:
+                    try:
+                        os.remove(p)
+                    except OSError:
+                        pass
 
     # summary of disagreements by signature (the replay file keeps only the first 50)
     bysig = {}
@@ -430,7 +434,7 @@ def replay(obj):
         if rp.get("kind") != "case":
             continue
         c = rp["case"]
-        if c["t"] == "mut" and not os.path.exists(c["docs"]):
+        if c["t"] == "mut" and not os.path.exists(os.path.join(c["docs"], c["id"] + ".json")):
             print("document file of the run is gone; re-run the check to regenerate: " + c["docs"])
             continue
         binary = asan if "asan" in (rp.get("harness") or "") else std
